@@ -73,7 +73,7 @@ def _mask_use(expr: ast.AST):
         if len(a) >= 2 and norm(a[0]) == "x" and isinstance(a[1], ast.Subscript) and norm(a[1].slice) == "index[0]" \
                 and "keep" in kw and isinstance(kw["keep"], ast.Constant):
             return ("apply_mask(x, M)", norm(a[1].value), bool(kw["keep"].value))
-    raise AnalysisError(RULE, f"return form not understood: `{norm(expr)}`")
+    return ("other:" + norm(expr)[:60], norm(expr)[:60], None)
 
 
 def rule_projection_pairs(rep: Report, repo: Repo):
@@ -183,11 +183,25 @@ def _complementary(func, owner, m_keep: str, m_elim: str):
                     rel.append((name, other, a))
     if not rel:
         return f"no `{{i: 1 - v for i, v in X.items()}}` definition links `{m_keep}` and `{m_elim}`"
-    # every if/else construction branch must contain exactly one complement definition
-    branches = {}
-    for name, other, a in rel:
-        p = a._parent
-        branches.setdefault(id(p), []).append(name)
+    # every construction block that assigns one of the masks from outside data must define the
+    # other one as its complement in the same block
+    def is_remap(a, name):
+        v = a.value
+        return isinstance(v, ast.DictComp) and isinstance(v.generators[0].iter, ast.Call) \
+            and norm(v.generators[0].iter.func) == f"{name}.items"
+    blocks = {}
+    for name in (m_keep, m_elim):
+        for a in _assignments_in(owner, name):
+            if is_remap(a, name):
+                continue
+            blocks.setdefault(id(a._parent) if not isinstance(a._parent, ast.If) else (id(a._parent), any(a is s for s in a._parent.body)), []).append((name, a))
+    rel_ids = {id(a) for _n, _o, a in rel}
+    for key, items in blocks.items():
+        names = {n for n, _a in items}
+        n_rel = sum(1 for _n, a in items if id(a) in rel_ids)
+        if names != {m_keep, m_elim} or n_rel != 1:
+            what = "; ".join(norm(a)[:70] for _n, a in items)
+            return f"in one construction branch the masks are not complementary: {what}"
     # remappings (DictComp over own items that is not a complement) must be textually parallel
     remaps = {}
     for name in (m_keep, m_elim):
